@@ -137,6 +137,14 @@ def same_bind_projection(a, b):
 
 # --------------------------------------------------------------------- runners
 
+def ncases(ctx, run, key="n"):
+    """number of cases of a run; four times as many when the source the layer mirrors has changed"""
+    n = run[key][ctx.tier]
+    if run["kind"] in getattr(ctx, "escalate", set()):
+        n *= 4
+    return n
+
+
 def crashed(res, out, rc, log, pid):
     """The harness did not finish (the implementation hung, crashed the process with a fatal error, or the
     harness itself failed): whatever the watchdog recorded is kept; the rest is a correspondence break."""
@@ -166,7 +174,7 @@ def crashed(res, out, rc, log, pid):
 def run_bind(ctx, pid, run, idx, replay, BUILD, ROOT):
     out = os.path.join(ctx.rundir, "bind%d" % idx)
     os.makedirs(out, exist_ok=True)
-    n = run["n"][ctx.tier]
+    n = ncases(ctx, run)
     cmd = [os.path.join(BUILD, "harness"), "bind", "-seed", str(ctx.seed + 1000 * idx), "-n", str(n), "-out", out]
     if replay is not None:
         cmd += ["-replay", replay]
@@ -214,7 +222,7 @@ def run_bind(ctx, pid, run, idx, replay, BUILD, ROOT):
 def run_iter(ctx, pid, run, idx, replay, BUILD, ROOT):
     out = os.path.join(ctx.rundir, "iter%d" % idx)
     os.makedirs(out, exist_ok=True)
-    n = run["n"][ctx.tier]
+    n = ncases(ctx, run)
     cmd = [os.path.join(BUILD, "harness"), "iter", "-seed", str(ctx.seed + 1000 * idx), "-n", str(n), "-out", out,
            "-exhaustive", str(run.get("exhaustive", {}).get(ctx.tier, 0))]
     rc, log = sh(cmd, timeout=3600)
@@ -259,7 +267,7 @@ def run_iter(ctx, pid, run, idx, replay, BUILD, ROOT):
 def run_cache(ctx, pid, run, idx, replay, BUILD, ROOT):
     out = os.path.join(ctx.rundir, "cache%d" % idx)
     os.makedirs(out, exist_ok=True)
-    n = run["n"][ctx.tier]
+    n = ncases(ctx, run)
     cmd = [os.path.join(BUILD, "harness"), "cache", "-seed", str(ctx.seed + 1000 * idx), "-n", str(n), "-out", out,
            "-stress", str(run["stress"][ctx.tier])]
     rc, log = sh(cmd, timeout=7200)
@@ -304,7 +312,7 @@ def run_cache(ctx, pid, run, idx, replay, BUILD, ROOT):
 def run_tx(ctx, pid, run, idx, replay, BUILD, ROOT):
     out = os.path.join(ctx.rundir, "tx%d" % idx)
     os.makedirs(out, exist_ok=True)
-    cmd = [os.path.join(BUILD, "harness"), "tx", "-seed", str(ctx.seed + 1000 * idx), "-n", str(run["n"][ctx.tier]),
+    cmd = [os.path.join(BUILD, "harness"), "tx", "-seed", str(ctx.seed + 1000 * idx), "-n", str(ncases(ctx, run)),
            "-out", out, "-races", str(run["races"][ctx.tier])]
     rc, log = sh(cmd, timeout=7200)
     res = {"failing": [], "diffs": [], "coverage": {}}
@@ -397,7 +405,7 @@ BIND_RULE = ("(statement, sample list, argument list) triples from the seeded ty
 def run_parse(ctx, pid, run, idx, replay, BUILD, ROOT):
     out = os.path.join(ctx.rundir, "parse%d" % idx)
     os.makedirs(out, exist_ok=True)
-    n = run["n"][ctx.tier]
+    n = ncases(ctx, run)
     cmd = [os.path.join(BUILD, "harness"), "parse", "-seed", str(ctx.seed + 1000 * idx), "-n", str(n),
            "-mode", run["mode"], "-out", out,
            "-corpus", ",".join(os.path.join(ROOT, "corpus", d) for d in run.get("corpus", ["parser"]))]
@@ -456,7 +464,7 @@ SCAN_RULE = ("statements with output expressions (all output forms x zoo types, 
 def run_scan(ctx, pid, run, idx, replay, BUILD, ROOT):
     out = os.path.join(ctx.rundir, "scan%d" % idx)
     os.makedirs(out, exist_ok=True)
-    cmd = [os.path.join(BUILD, "harness"), "scan", "-seed", str(ctx.seed + 1000 * idx), "-n", str(run["n"][ctx.tier]), "-out", out]
+    cmd = [os.path.join(BUILD, "harness"), "scan", "-seed", str(ctx.seed + 1000 * idx), "-n", str(ncases(ctx, run)), "-out", out]
     rc, log = sh(cmd, timeout=7200)
     res = {"failing": [], "diffs": [], "coverage": {}}
     if crashed(res, out, rc, log, pid):
@@ -508,7 +516,7 @@ SQLITE_RULE = ("scenarios on a real in-memory SQLite: a table per zoo struct typ
 def run_sqlite(ctx, pid, run, idx, replay, BUILD, ROOT):
     out = os.path.join(ctx.rundir, "sqlite%d" % idx)
     os.makedirs(out, exist_ok=True)
-    cmd = [os.path.join(BUILD, "harness"), "sqlite", "-seed", str(ctx.seed + 1000 * idx), "-n", str(run["n"][ctx.tier]), "-out", out]
+    cmd = [os.path.join(BUILD, "harness"), "sqlite", "-seed", str(ctx.seed + 1000 * idx), "-n", str(ncases(ctx, run)), "-out", out]
     rc, log = sh(cmd, timeout=7200)
     res = {"failing": [], "diffs": [], "coverage": {}}
     if crashed(res, out, rc, log, pid):
@@ -545,7 +553,7 @@ def run_determ(ctx, pid, run, idx, replay, BUILD, ROOT):
         if rc == 0:
             binary = os.path.join(BUILD, "harness-race")
             race_note = "built with -race"
-    cmd = [binary, "determ", "-seed", str(ctx.seed + 1000 * idx), "-n", str(run["n"][ctx.tier]), "-out", out]
+    cmd = [binary, "determ", "-seed", str(ctx.seed + 1000 * idx), "-n", str(ncases(ctx, run)), "-out", out]
     rc, log = sh(cmd, timeout=7200)
     res = {"failing": [], "diffs": [], "coverage": {}}
     if "WARNING: DATA RACE" in log:
